@@ -1265,7 +1265,9 @@ class ObjectT(T):
                             changed = True
         for f in self.in_fields():
             if f.flatten:
-                out.update(f.model_type().valid(rng, cx, depth + 1))
+                sub = f.model_type().valid(rng, cx, depth + 1)
+                keep = set(resolve_obj(f.t, cx).flat_aliases(cx))  # aggregate fields of a flattened object receive nothing
+                out.update({k: v for k, v in sub.items() if k in keep})
             elif f.pattern is not None:
                 sub = f.model_type().valid(rng, cx, depth + 1)
                 wit = [w for w in PATTERN_WITNESS.get(f.pattern, []) if re.match(f.pattern, w)]
